@@ -21,7 +21,8 @@ RULE = ("Events are {write-clock edge, read-clock edge, both edges in the same i
         "(b) walks: Hypothesis event lists (bursts of one clock, simultaneous edges) for depth<=16, width<=8, followed "
         "by a drain phase: writing stops and alternating edges with r_en=1 must deliver everything within len+10 rounds. "
         "(c) elaboration: every depth 0..40 x exact_depth either raises ValueError in the constructor or elaborates, "
-        "simulates one step and converts to RTLIL. Monitor = deque (order, no loss/duplication, r_rdy => r_data oldest, "
+        "simulates one step and converts to RTLIL. (d) pairs: two FIFOs as sibling submodules over the same two clock "
+        "domains, the second one usually crossing in the other direction, each with its own inputs and its own monitor. Monitor = deque (order, no loss/duplication, r_rdy => r_data oldest, "
         "w_rdy => held<depth, levels within 0..depth). Non-trivial: transitions/walk steps that move an entry; walks "
         "with simultaneous edges, bursts >=3 of each clock, full and empty.")
 ASSUMPTIONS = [
@@ -258,6 +259,86 @@ def walk_body(ctx, case):
     ctx.note(case, simult and bursts and st_["moved"] > 0, *keys, evals=len(steps))
 
 
+# ------------------------------------------------------------------------------------------ pairs
+# Two FIFOs as sibling submodules of one design over the same two clock domains, the second one crossing in the other
+# direction (its read domain is the first one's write domain): what one instance keeps must not reach the other.
+SWAP = {"w": "r", "r": "w", "b": "b"}
+
+
+@st.composite
+def pair_cases(draw, nsteps):
+    a = draw(walk_cases(nsteps)); b = draw(walk_cases(nsteps))
+    if draw(INT(0, 1)):
+        b["kind"] = a["kind"]
+        if draw(INT(0, 1)):
+            b["depth"] = a["depth"]
+    b["domains"] = a["domains"]
+    for sa, sb in zip(a["steps"], b["steps"]):
+        sb[0] = sa[0]
+    return {"a": a, "b": b, "crossed": draw(INT(0, 2)) != 0, "order": draw(INT(0, 1))}
+
+
+def pair_body(ctx, case):
+    ca, cb = case["a"], case["b"]
+    crossed = case["crossed"]
+    with warnings.catch_warnings():
+        warnings.simplefilter("ignore")
+        m = Module()
+        rn, wn = ca.get("domains") or ["read", "write"]
+        rcd, wcd = ClockDomain(rn), ClockDomain(wn)
+        m.domains += [rcd, wcd]
+        fa = CLASSES[ca["kind"]](width=ca["width"], depth=ca["depth"], r_domain=rn, w_domain=wn)
+        fb = CLASSES[cb["kind"]](width=cb["width"], depth=cb["depth"], r_domain=wn if crossed else rn,
+                                 w_domain=rn if crossed else wn)
+        if case["order"]:
+            m.submodules.b = fb; m.submodules.a = fa
+        else:
+            m.submodules.a = fa; m.submodules.b = fb
+        elaborated_before(case, m, every=3)
+        sim = Simulator(m)
+    fail = []
+    moved = [0, 0]
+    fifos = [(fa, ca, False), (fb, cb, crossed)]
+
+    async def tb(c):
+        qs = [(), ()]
+        n = len(ca["steps"])
+        for i in range(n + 2 * (max(fa.depth, fb.depth) + 10)):
+            ev = ca["steps"][i][0] if i < n else "wr"[i % 2]
+            outs = []
+            for f, cs, x in fifos:
+                _, we, wd, re = cs["steps"][i] if i < n else (ev, 0, 0, 1)
+                c.set(f.w_data, wd); c.set(f.w_en, we); c.set(f.r_en, int(re))
+            for k, (f, cs, x) in enumerate(fifos):
+                _, we, wd, re = cs["steps"][i] if i < n else (ev, 0, 0, 1)
+                out = {nm: c.get(getattr(f, nm)) for nm in OUTS}
+                outs.append(((we, wd, int(re)), out))
+                try:
+                    check_outputs(f, qs[k], out, dict(step=i, which="ab"[k], queue=list(qs[k]), inputs=[we, wd, int(re)],
+                                                      event=ev, outputs=out))
+                except Mismatch as mm:
+                    fail.append(mm); return
+            apply_event(c, fa, rcd, wcd, ev)
+            for k, (f, cs, x) in enumerate(fifos):
+                q, popped, pushed = model_step(qs[k], SWAP[ev] if x else ev, outs[k][0], outs[k][1])
+                qs[k] = q
+                moved[k] += popped + pushed
+        for k in range(2):
+            if qs[k]:
+                fail.append(Mismatch("not-drained-within-bound", which="ab"[k], left=list(qs[k]))); return
+    with warnings.catch_warnings():
+        warnings.simplefilter("ignore")
+        sim.add_testbench(tb)
+        sim.run()
+    if fail:
+        raise fail[0]
+    keys = ["pair:any", "pair:crossed" if crossed else "pair:parallel"]
+    if ca["kind"] == cb["kind"]: keys.append("pair:same-class")
+    else: keys.append("pair:different-classes")
+    if moved[0] and moved[1]: keys.append("pair:both-moved")
+    ctx.note(case, bool(moved[0] and moved[1]), *keys, evals=len(ca["steps"]))
+
+
 # ------------------------------------------------------------------------------------------ elaboration
 def elab_cases(ctx):
     if ctx.shard == 0:
@@ -304,13 +385,15 @@ def parts(tier):
         Part("elaborate", "enum", cases=elab_cases, body=elab_body, exhaustive=True),
         Part("graph", "enum", cases=graph_cases, body=graph_body, exhaustive=True),
         Part("walks", "hyp", strategy=walk_cases(150 if q else 600), body=walk_body, n=40 if q else 300),
+        Part("pairs", "hyp", strategy=pair_cases(60 if q else 300), body=pair_body, n=12 if q else 150),
     ]
 
 
 REQUIRED = ["graph:AsyncFIFO", "graph:AsyncFIFOBuffered", "graph:full", "graph:simultaneous-read-write",
             "walk:simultaneous-edges", "walk:bursts", "walk:full", "walk:emptied", "elab:elaborated",
             "elab:rejected-by-constructor", "elab:actual-depth-1", "elab:actual-depth-2",
-            "walk:AsyncFIFO-with-named-domains", "walk:AsyncFIFOBuffered-with-named-domains"]
+            "walk:AsyncFIFO-with-named-domains", "walk:AsyncFIFOBuffered-with-named-domains",
+            "pair:crossed", "pair:parallel", "pair:same-class", "pair:different-classes", "pair:both-moved"]
 
 
 def coverage_extra(tier, counters, extra):
